@@ -310,6 +310,11 @@ def gen_params(rng):
     ckw = phys.gen_constants(rng, amplified=rng.random() < 0.5)
     if rng.random() < 0.3:
         ckw['rp'] = round(0.1 + 14.4 * rng.uniform(0.2, 0.8), 3)      # profile peak not at mid-radius
+    if rng.random() < 0.35:
+        # legal values that are falsy, negative or of unusual magnitude
+        k = rng.choice(['kN0', 'kTi', 'kTe', 'eps', 'n', 'm', 'zMin', 'iotaVal', 'B0', 'deltaR'])
+        ckw[k] = rng.choice({'n': [0, -3], 'm': [0, 1], 'zMin': [-5.0, 0.0], 'B0': [2.5, 1e-3],
+                             'deltaR': [1e-12, 1e12]}.get(k, [0.0, 0.0, 1e-300, 123456789.125]))
     P = rng.choice([1, 2, 3, 4])
     sched = simworld.random_sched(rng, 0)
     return dict(kind='params', P=P, ckw=ckw, perm_seed=rng.randrange(1 << 30),
